@@ -214,17 +214,26 @@ def h_inspect_small(e, mnems, mode, cfg=None):
     for i in range(1, 32):
         e.assume(cond("<", c.regs0.get(i), 2**31))
     for m, f in zip(mnems, fields):
+        if m == "ecall":
+            # print-string service on a string inside the window: its byte reads are uncounted
+            # accesses that fill / evict like any other read
+            e.assume(cond("==", reg0(17), 4))
+            e.assume(land(cond(">=", reg0(10), 2**14), cond("<=", reg0(10), 2**14 + 7)))
+            continue
         a = zx(reg0(f["rs1"]) + f["imm"], 32)
         e.assume(land(cond(">=", a, 2**14), cond("<=", a, 2**14 + 7)))
         if len(mnems) >= 3:
             e.assume(cond("==", a & 3, 0))  # longer programs: the two word addresses only
         e.assume(cond("!=", f.get("rd", 1), f["rs1"]) if "rd" in f else True)
+        if "ecall" in mnems and "rd" in f:
+            e.assume(land(cond("!=", f["rd"], 10), cond("!=", f["rd"], 17)))
     # base registers keep their initial values: no load writes a register used as a base later
     for i_, fi in enumerate(fields):
         if "rd" not in fi:
             continue
         for fj in fields[i_ + 1:]:
-            e.assume(cond("!=", fi["rd"], fj["rs1"]))
+            if "rs1" in fj:
+                e.assume(cond("!=", fi["rd"], fj["rs1"]))
     names = getters(c.sim)
     lower = c.lower_mem()
 
@@ -407,6 +416,8 @@ MODES = ["single_stage_pipeline", "five_stage_pipeline"]
 CFGS = [None, ("wb", "lru", 1, 0, 2), ("wt", "plru", 1, 1, 2)]
 # the small harness keeps all addresses within two words: single-set caches make them compete
 SMALL_CFGS = [None, ("wb", "lru", 0, 0, 2), ("wt", "plru", 0, 0, 2), ("wb", "lru", 1, 0, 2)]
+# direct-mapped single block: every access to the other word evicts (write-back: writes back)
+EVICT_CFGS = [("wb", "lru", 0, 0, 1), ("wt", "lru", 0, 0, 1)]
 
 
 def jobs(tier, seed):
@@ -433,6 +444,11 @@ def jobs(tier, seed):
         for ci, cfg in enumerate(SMALL_CFGS[:3] if quick else SMALL_CFGS):
             for sk in ((["sw"], ["sb", "lw"], ["sw", "sw", "lw", "lw"]) if quick else (["sw"], ["sb", "sw"], ["sw", "lw"], ["sw", "sw"], ["sw", "sw", "lw", "lw"], ["sw", "lw", "sw", "lw"], ["sh", "sb", "lbu"])):
                 out.append(dict(common, label="small%s-c%d:%s" % (ms, ci, ",".join(sk)), harness="small", args={"mnems": sk, "mode": mode, "cfg": cfg}, cost=20, validate_every=2))
+    for mode in MODES:
+        ms = "1" if mode.startswith("single") else "5"
+        for ci, cfg in enumerate(EVICT_CFGS):
+            for sk in ((["sw", "ecall"], ["sw", "lw", "sw"]) if quick else (["sw", "ecall"], ["sw", "ecall", "lw"], ["sw", "lw", "sw"], ["sb", "ecall", "sw"], ["sw", "sw", "lw"])):
+                out.append(dict(common, label="evict%s-c%d:%s" % (ms, ci, ",".join(sk)), harness="small", args={"mnems": sk, "mode": mode, "cfg": cfg}, cost=25, validate_every=2))
     for mode in MODES:
         for which in SPECIAL_TEXTS:
             out.append(dict(common, label="text%s:%s" % ("1" if mode.startswith("single") else "5", which), harness="text", args={"which": which, "mode": mode, "cfg": CFGS[1] if which == "mixed" else None}, cost=30, validate_every=2))
